@@ -538,6 +538,93 @@ def make_perp_spacing_run(start_wall, end_wall, explicit):
     return run
 
 
+def make_regrid_run(el, eu, with_sfunc):
+    """Real PsiContour.getRegridded with the fine contour, extension and refinement as stubs:
+    region end points are not moved by redistribution, indices / start / end bookkeeping."""
+
+    def run(ctx):
+        from hypnotoad.core import equilibrium as E
+        from hypnotoad.core.equilibrium import Point2D, PsiContour
+
+        npoints, n0 = 4, 5
+        c = object.__new__(PsiContour)
+        P = [Point2D(float(k), 0.5 * k) for k in range(n0)]
+        c.points = list(P)
+        c._startInd, c._endInd = 1, n0 - 2  # old guard points at both ends
+        c._extend_lower = c._extend_upper = 0
+        c._distance = None
+        c.user_options = types.SimpleNamespace(refine_width=1e-5, refine_atol=2e-8)
+        log = []
+        c.temporaryExtend = lambda **kw: log.append(("temporaryExtend", kw))
+        dfine = [0.0, 1.0, 2.0, 3.0, 4.0, 5.0, 6.0, 7.0, 8.0]
+
+        class Fine:
+            distance = numpy.array(dfine)
+            startInd = 3
+            extend_lower_fine = extend_upper_fine = 0
+
+            def extend(self, **kw):
+                log.append(("fine.extend", kw))
+                raise AssertionError("extension not expected under the precondition")
+
+            def interpFunction(self):
+                return lambda x: ("interp", x)
+
+        fine = Fine()
+        c._fine_contour = fine
+        def get_fine(psi=None):
+            c._fine_contour = fine  # as the real method does after (re)building it
+            return fine
+
+        c.get_fine_contour = get_fine
+        dcont = [ctx.real("dist%d" % k) for k in range(n0)]
+        c.get_distance = lambda psi=None: dcont
+        made = []
+
+        def new_from_self(points=None, psival=None):
+            nc = object.__new__(PsiContour)
+            nc.points = list(points)
+            nc._startInd, nc._endInd = 0, len(points) - 1
+            nc._extend_lower = nc._extend_upper = 0
+            nc._distance = nc._fine_contour = None
+            nc.refine = lambda **kw: log.append(("refine", kw))
+            made.append(nc)
+            return nc
+
+        c.newContourFromSelf = new_from_self
+        sfunc = UFunc(ctx, "sfunc") if with_sfunc else None
+        # pre: the requested distances lie within the fine contour (no extension needed)
+        lo, hi = -dfine[fine.startInd], dfine[-1] - dfine[fine.startInd]
+        if with_sfunc:
+            ctx.assume(sfunc.at(0.0) == 0)
+            for k in range(-el, npoints + eu):
+                ctx.assume(And(sfunc.at(float(k)) >= lo, sfunc.at(float(k)) <= hi))
+        else:
+            L = dcont[c._endInd] - dcont[c._startInd]
+            ctx.assume(And(L > 0, L * (npoints - 1 + eu) <= hi * (npoints - 1), -L * el >= lo * (npoints - 1)))
+        with patched((E, "calc_distance", lambda a, b: 1.0)):
+            new = PsiContour.getRegridded(c, npoints, psi=None, sfunc=sfunc, extend_lower=el, extend_upper=eu)
+        with spec_mode():
+            ctx.oblige(TRUE(new is made[0] and len(new.points) == npoints + el + eu), "new contour has npoints + extend_lower + extend_upper points")
+            ctx.oblige(TRUE(new.startInd == el and new.endInd == len(new.points) - 1 - eu), "startInd = extend_lower, endInd = last - extend_upper")
+            ctx.oblige(TRUE(new.points[new.startInd] is P[1] and new.points[new.endInd] is P[n0 - 2]), "the region's end points are the ORIGINAL end points (not moved by redistribution)")
+            for k, q in enumerate(new.points):
+                if k in (new.startInd, new.endInd):
+                    continue
+                idx = float(k - el)
+                want = sfunc.at(idx) if with_sfunc else (dcont[c._endInd] - dcont[c._startInd]) / (npoints - 1) * idx
+                ok = isinstance(q, tuple) and q[0] == "interp"
+                ctx.oblige(TRUE(ok), "point %d comes from the fine contour's interpolation function" % k)
+                if ok:
+                    ctx.oblige(q[1] == want, "point %d sits at distance sfunc(index %d) - sfunc(0) from the start (uniform when no spacing function is given)" % (k, k - el))
+            ctx.oblige(TRUE(new._fine_contour is fine), "the new contour re-uses the (extended) fine contour")
+            ctx.oblige(TRUE([x for x in log if x[0] == "refine"] == [("refine", dict(psi=None, width=1e-5, atol=2e-8, skip_endpoints=True))]), "refined once, end points skipped")
+            ctx.oblige(TRUE(c.extend_lower == el and c.extend_upper == eu), "requested guard counts recorded on the source contour")
+        return new
+
+    return run
+
+
 def spacing_selection(S):
     """getSpacings / getTargetParameter: which option reaches which end of which leg.
     Every option is a distinct token, so the selection is decided exactly (all leg names x
@@ -614,6 +701,10 @@ def build(S):
         V = object()
         for ranges, orth, vecs in ((("lower", "upper"), False, (None, None)), (("lower", "upper"), False, (V, V)), (("lower", "upper"), False, (None, V)), (("lower",), True, (V, None)), (("upper",), True, (None, V)), ((), True, (None, None))):
             S.contract("combineSfuncs[ranges=%s,%s,vec=%s]" % ("+".join(ranges) or "none", "orthogonal given" if orth else "no orthogonal function", "/".join("-" if v is None else "v" for v in vecs)), E_ + "combineSfuncs", make_combine_run(ranges, orth, vecs), expected_exceptions=(ValueError,), shape="symbolic ny, L, ranges; component spacing functions uninterpreted", feas_timeout_ms=4000)
+        S.under_contract("hypnotoad.core.equilibrium:PsiContour.getRegridded")
+        for el, eu in ((0, 0), (2, 0), (0, 2), (2, 2)):
+            for wf in (True, False):
+                S.contract("getRegridded[extend=%d/%d,%s]" % (el, eu, "sfunc" if wf else "uniform"), "hypnotoad.core.equilibrium:PsiContour.getRegridded", make_regrid_run(el, eu, wf), shape="4 points + guards; fine contour, extension and refinement are stubs", feas_timeout_ms=4000)
         for method in ("sqrt", "monotonic", "linear"):
             for explicit in (False, True):
                 S.contract("getSfuncFixedSpacing[%s%s]" % (method, ",explicit spacings" if explicit else ""), E_ + "getSfuncFixedSpacing", make_fixed_spacing_run(method, explicit), shape="symbolic npoints, distance, N_norm_prefactor, ny_total; helper functions are recorder stubs")
